@@ -21,7 +21,8 @@ from harness.core import coq_list, coq_string, coqQ, coq_option
 
 THEOREMS = ['C14_measurements', 'C14_row_order_kept', 'C14_own_rows_only', 'C14_unrelated_rows',
             'C14_unrelated_rows_regimen', 'C14_regimen', 'C14_event_delivers_amount', 'C14_ids',
-            'C14_ids_first_appearance', 'C14_ids_column_only', 'C14_rearranged']
+            'C14_ids_first_appearance', 'C14_ids_column_only', 'C14_rearranged',
+            'C14_label_selection_with_unique_labels', 'C14_label_selection_refuted']
 HEADER = '''From Coq Require Import ZArith QArith List Bool String.
 From Chi Require Import Model.Problem Tie.C14Tie.
 Import ListNotations.
